@@ -1,3 +1,4 @@
 pub mod c05;
 pub mod c13;
 pub mod c18;
+pub mod c19;
